@@ -1,17 +1,21 @@
 use crate::run::Suite;
 use std::path::Path;
 
+pub mod c19;
 pub mod c21;
 
 pub fn for_property(p: &str) -> Vec<Suite> {
     match p {
+        "C19" => c19::suites(),
         "C21" => c21::suites(),
         _ => vec![],
     }
 }
 
 /// Regenerate `Generated/*.lean` from the running implementation (only rewritten when changed).
-pub fn extract_all(_dir: &Path) {}
+pub fn extract_all(dir: &Path) {
+    c19::extract(dir);
+}
 
 #[allow(dead_code)]
 pub fn write_if_changed(path: &Path, content: &str) {
